@@ -445,6 +445,23 @@ fn main() {
                             continue;
                         }
                         let op = &match cw.resolve(op) { Some(o) => o, None => continue };
+                        if op["c"].as_str() == Some("token") {
+                            // a cw20 bookkeeping step of the caller (e.g. revoking an allowance): it has no native
+                            // counterpart and is not a protocol operation - executed on the cw20 side only
+                            cw.op(op);
+                            let ev_cw = cw.out.pop().unwrap();
+                            cw.out.clear();
+                            nat.op(&json!({"k": "block", "dh": 0, "dt": 0}));
+                            let mut ev_nat = nat.out.pop().unwrap();
+                            nat.out.clear();
+                            ev_nat["kind"] = ev_cw["kind"].clone();
+                            ev_nat["tx"] = ev_cw["tx"].clone();
+                            ev_nat["res"] = ev_cw["res"].clone();
+                            i += 1;
+                            writeln!(out, "{}", json!({"kind": ev_cw["kind"], "scn": id, "i": i, "tx": ev_cw["tx"],
+                                "cw": ev_cw, "nat": ev_nat, "funds": 0})).unwrap();
+                            continue;
+                        }
                         let mut o_cw = op.clone();
                         o_cw["funds"] = json!(0);
                         o_cw["fault"] = json!(0);
